@@ -121,6 +121,7 @@ type tvar struct {
 type xl struct {
 	fn          *transFunc
 	fd          *ast.FuncDecl
+	file        *ast.File // the parsed source file (package-level constants and struct declarations are read from it)
 	recvVar     string
 	scopes      []map[string]tvar
 	consts      map[string]constant.Value // local const declarations
@@ -321,6 +322,12 @@ func (x *xl) namedConst(n ast.Node, txt string) (tx, bool) {
 		return tx{typ: "untyped", val: v}, true
 	}
 	if s, ok := x.fn.consts[txt]; ok {
+		if s == "src" { // a package-level constant of the same file with a literal value: READ from the source
+			if v, ok := x.srcConst(txt); ok {
+				return tx{typ: "untyped", val: v}, true
+			}
+			x.fail(n, "constant %s: no package-level declaration with a literal value in %s", txt, x.fn.file)
+		}
 		if strings.HasPrefix(s, "bool:") {
 			return tx{typ: "untyped", val: constant.MakeBool(s == "bool:true")}, true
 		}
@@ -347,6 +354,67 @@ func (x *xl) namedConst(n ast.Node, txt string) (tx, bool) {
 		return tx{typ: "untyped", val: v}, true
 	}
 	return tx{}, false
+}
+
+// srcConst finds `const name = <literal>` at package level of the translated file.
+func (x *xl) srcConst(name string) (constant.Value, bool) {
+	if x.file == nil {
+		return nil, false
+	}
+	for _, d := range x.file.Decls {
+		gd, ok := d.(*ast.GenDecl)
+		if !ok || gd.Tok != token.CONST {
+			continue
+		}
+		for _, sp := range gd.Specs {
+			vs := sp.(*ast.ValueSpec)
+			for i, id := range vs.Names {
+				if id.Name != name || i >= len(vs.Values) {
+					continue
+				}
+				if lit, ok := vs.Values[i].(*ast.BasicLit); ok && (lit.Kind == token.STRING || lit.Kind == token.INT || lit.Kind == token.CHAR) {
+					v := constant.MakeFromLiteral(lit.Value, lit.Kind, 0)
+					if lit.Kind != token.STRING {
+						v = constant.ToInt(v)
+					}
+					return v, true
+				}
+				return nil, false
+			}
+		}
+	}
+	return nil, false
+}
+
+// srcStructFields: the field names of `type name struct {…}` declared in the translated file, in order.
+func (x *xl) srcStructFields(name string) ([]string, bool) {
+	if x.file == nil {
+		return nil, false
+	}
+	for _, d := range x.file.Decls {
+		gd, ok := d.(*ast.GenDecl)
+		if !ok || gd.Tok != token.TYPE {
+			continue
+		}
+		for _, sp := range gd.Specs {
+			ts := sp.(*ast.TypeSpec)
+			st, ok := ts.Type.(*ast.StructType)
+			if ts.Name.Name != name || !ok {
+				continue
+			}
+			var out []string
+			for _, f := range st.Fields.List {
+				if len(f.Names) == 0 {
+					return nil, false // embedded field
+				}
+				for _, n := range f.Names {
+					out = append(out, n.Name)
+				}
+			}
+			return out, true
+		}
+	}
+	return nil, false
 }
 
 func intConst(s string) constant.Value {
@@ -488,10 +556,31 @@ func (x *xl) expr(e ast.Expr) tx {
 		}
 		decl := x.fn.structs[typ[7:]]
 		given := map[string]string{}
+		if len(t.Elts) > 0 {
+			if _, keyed := t.Elts[0].(*ast.KeyValueExpr); !keyed {
+				// positional literal T{a, b, c}: only for a struct declared IN THE TRANSLATED FILE whose field list is
+				// exactly the list the whitelist entry declares (so that positions mean the declared fields)
+				src, ok := x.srcStructFields(exprString(t.Type))
+				if !ok || len(src) != len(decl) || len(t.Elts) != len(decl) {
+					x.fail(e, "positional composite literal of %s: the struct is not declared in this file with the %d fields of the whitelist entry", exprString(t.Type), len(decl))
+				}
+				var parts []string
+				for i, f := range decl {
+					if src[i] != f.lean {
+						x.fail(e, "positional composite literal of %s: field %d is %s in the source, %s in the whitelist entry", exprString(t.Type), i, src[i], f.lean)
+					}
+					if _, keyed := t.Elts[i].(*ast.KeyValueExpr); keyed {
+						x.fail(e, "mixed composite literal")
+					}
+					parts = append(parts, x.coerce(t.Elts[i], x.expr(t.Elts[i]), f.typ).lean)
+				}
+				return tx{lean: "(.call \"tuple\" [" + strings.Join(parts, ", ") + "])", typ: typ}
+			}
+		}
 		for _, el := range t.Elts {
 			kv, ok := el.(*ast.KeyValueExpr)
 			if !ok {
-				x.fail(e, "positional composite literal")
+				x.fail(e, "mixed composite literal")
 			}
 			k := exprString(kv.Key)
 			var ft string
@@ -742,6 +831,22 @@ func (x *xl) callExpr(c *ast.CallExpr) (tx, bool) {
 				return tx{lean: "(.call " + leanStr(id.Name) + " [" + a.lean + ", " + b.lean + "])", typ: a.typ}, false
 			case "append":
 				return x.appendCall(c), false
+			case "make":
+				// make([]T, 0, n): the empty slice (slices are values; capacity has no meaning — see `cap` in the docs)
+				if len(c.Args) != 3 {
+					x.fail(c, "make is in the subset only as make([]T, 0, n)")
+				}
+				t, ok := x.tryType(c.Args[0])
+				if !ok || !strings.HasPrefix(t, "[]") {
+					x.fail(c, "make of %s", exprString(c.Args[0]))
+				}
+				if l := x.expr(c.Args[1]); l.typ != "untyped" || l.val.Kind() != constant.Int || constant.Sign(l.val) != 0 {
+					x.fail(c, "make with a length other than the constant 0")
+				}
+				if n := x.expr(c.Args[2]); n.typ != "untyped" && !isInt(n.typ) {
+					x.fail(c, "make capacity of type %s", n.typ)
+				}
+				return tx{lean: "(.lit (.list []))", typ: t}, false
 			}
 			if _, isConst := x.namedConst(c, id.Name); !isConst {
 				if t, ok := x.tryType(c.Fun); ok {
@@ -2179,7 +2284,7 @@ func translate(spec transSpec) func() (string, int, error) {
 			if fd == nil {
 				return "", 0, fmt.Errorf("func (%s) %s not found in %s", fn.recv, fn.name, fn.file)
 			}
-			x := &xl{fn: fn, fd: fd, consts: map[string]constant.Value{}}
+			x := &xl{fn: fn, fd: fd, file: f, consts: map[string]constant.Value{}}
 			pendingCall = nil
 			lean, err := x.function()
 			if err != nil {
